@@ -60,8 +60,17 @@ class Emitter:
         self.pr = pat.Printer(rng, posix=bool(self.o.get("posix") or self.o.get("lex")),
                               allow_raw_high=self.o.get("bits") != 7)
         self.uniq = 0
+        # spelling of the calls of flex's own action functions, one choice per specification:
+        # name(), name (), name ( )  (C allows all; flex has to recognise yymore/yyreject)
+        self.callsp = 0
+        if rng is not None and not self.fl.c99:
+            self.callsp = [0, 0, 1, 2][self.seed % 4]
         self.track_ln = bool(self.o.get("yylineno"))
         self.uses = set()
+
+    def call0(self, name):
+        """name() in the specification's spelling."""
+        return name + ["()", " ()", " ( )"][self.callsp]
 
     def ln(self):
         return "yylineno" if self.track_ln else "VF_NOLN"
@@ -82,7 +91,7 @@ class Emitter:
             elif k == "ret":
                 out.append("%sreturn %d;" % (indent, op[1]))
             elif k == "term":
-                out.append("%syyterminate();" % indent)
+                out.append("%s%s;" % (indent, self.call0("yyterminate") if not self.fl.c99 else "yyterminate()"))
             elif k == "begin":
                 if in_yylex:
                     # the argument is an expression, not always a literal: a macro
@@ -126,7 +135,7 @@ class Emitter:
             elif k == "setbol":
                 out.append("%syysetbol(%d); vf_evi(%s, \"Y\", %d);" % (indent, op[1], C, op[1]))
             elif k == "more":
-                out.append("%svf_M(%s, yyleng); yymore();" % (indent, C))
+                out.append("%svf_M(%s, yyleng); %s;" % (indent, C, self.call0("yymore")))
                 self.uses.add("yymore")
             elif k == "less":
                 mode = {"abs": 0, "back": 1, "hash": 2}[op[1]]
@@ -148,7 +157,7 @@ class Emitter:
             elif k == "reject":
                 out.append("%svf_ev1(%s, \"J\");" % (indent, C))
                 if fl.c99 or (self.rng and util.Rng(self.seed, repr(ops)).chance(50)):
-                    out.append("%syyreject();" % indent)
+                    out.append("%s%s;" % (indent, self.call0("yyreject")))
                 else:
                     out.append("%sREJECT;" % indent)
                 self.uses.add("reject")
